@@ -237,45 +237,76 @@ def check_delay_draw(p, r):
             r.fail('C11.R5', key, 'get_delay missing', src(rel), ci.node.lineno)
             continue
         r.analysed_functions.add(gd.key)
-        ok, why = get_delay_shape(gd)
+        ok, why = get_delay_shape(gd, p, ci.key)
         (r.ok if ok else r.fail)('C11.R5', key, 'generator → next(), callable → call, else constant; asserts val >= 0' if ok else why,
                                  src(rel), gd.node.lineno)
 
 
-def get_delay_shape(fi):
+def get_delay_shape(fi, p=None, cls_key=None):
+    """Path rule: a generator is advanced exactly once and its value returned, a callable is called exactly once and its value returned, anything
+    else is returned as it is; on every completing path the returned value was checked to be >= 0 (assert, or a raise on `< 0`)."""
     par = [a.arg for a in fi.node.args.args if a.arg != 'self']
     if not par:
         return False, 'no delay parameter'
     d = par[0]
-    top = [n for n in fi.node.body if isinstance(n, ast.If)]
-    if not top:
-        return False, 'no dispatch'
-    n = top[0]
-    t1 = ast.unparse(n.test)
-    if not (f"hasattr({d}, '__next__')" in t1):
-        return False, f'first branch tests `{t1}`, expected hasattr({d}, "__next__")'
-    b1 = [x for x in n.body if isinstance(x, ast.Assign)]
-    if not (b1 and ast.unparse(b1[0].value) == f'next({d})'):
-        return False, 'generator branch does not take next(delay)'
-    var = ast.unparse(b1[0].targets[0])
-    if not (len(n.orelse) == 1 and isinstance(n.orelse[0], ast.If)):
-        return False, 'no callable branch'
-    n2 = n.orelse[0]
-    if ast.unparse(n2.test) != f'callable({d})':
-        return False, f'second branch tests `{ast.unparse(n2.test)}`'
-    b2 = [x for x in n2.body if isinstance(x, ast.Assign)]
-    if not (b2 and ast.unparse(b2[0].value) == f'{d}()' and ast.unparse(b2[0].targets[0]) == var):
-        return False, 'callable branch does not call delay()'
-    b3 = [x for x in n2.orelse if isinstance(x, ast.Assign)]
-    if not (b3 and ast.unparse(b3[0].value) == d and ast.unparse(b3[0].targets[0]) == var):
-        return False, 'constant branch does not return the constant'
-    asserts = [x for x in fi.node.body if isinstance(x, ast.Assert)]
-    okassert = any(ast.unparse(a.test).replace(' ', '') in (f'{var}>=0', f'0<={var}') for a in asserts)
-    raises = [x for x in fi.node.body if isinstance(x, ast.If) and any(isinstance(y, ast.Raise) for y in x.body)
-              and ast.unparse(x.test).replace(' ', '') in (f'{var}<0', f'0>{var}')]
-    if not (okassert or raises):
-        return False, 'no non-negativity check of the drawn value'
-    rets = [x for x in fi.node.body if isinstance(x, ast.Return)]
-    if not (rets and ast.unparse(rets[-1].value) == var):
-        return False, 'does not return the drawn value'
+    D = ('param', d)
+    ex = paths.Explorer(p, cls_key, tracked=set(), atomic=set(), unroll=1, interrupt_edges=False)
+    kinds = set()
+    n = 0
+    for pa in ex.paths(fi):
+        if pa.raises:
+            continue
+        n += 1
+        evs = pa.events
+        ret = next((e.value for e in reversed(evs) if e.kind == 'return'), None)
+        tests = {}
+        for e in evs:
+            if e.kind == 'cond' and not e.d.get('synthetic'):
+                t = e.text.replace(' ', '')
+                if t.startswith('hasattr(') and '__next__' in t:
+                    tests['gen'] = e.polarity
+                elif t.startswith('callable('):
+                    tests['call'] = e.polarity
+        nexts = [e for e in evs if e.kind == 'xcall' and e.name == 'next' and e.args and e.args[0] == D]
+        calls = [e for e in evs if e.kind == 'xcall' and e.name == d]
+        if tests.get('gen'):
+            kinds.add('gen')
+            if len(nexts) != 1 or calls:
+                return False, f'generator branch takes next(delay) {len(nexts)} time(s)'
+            if ret != nexts[0].result:
+                return False, 'generator branch does not return the value it drew'
+        elif tests.get('call'):
+            kinds.add('call')
+            if len(calls) != 1 or nexts:
+                return False, f'callable branch calls delay() {len(calls)} time(s)'
+            if ret != calls[0].result:
+                return False, 'callable branch does not return the value it drew'
+        elif tests.get('gen') is False and tests.get('call') is False:
+            kinds.add('const')
+            if nexts or calls:
+                return False, 'constant branch consults the delay as if it were a generator / callable'
+            if ret != D:
+                return False, 'constant branch does not return the constant'
+        else:
+            return False, 'no dispatch on generator / callable / constant'
+        checked = False
+        for e in evs:
+            ops = e.d.get('operands')
+            if not ops:
+                continue
+            op, lv, rv = ops
+            nonneg = (op == 'GtE' and lv == ret and rv == ('const', 0)) or (op == 'LtE' and lv == ('const', 0) and rv == ret)
+            neg = (op == 'Lt' and lv == ret and rv == ('const', 0)) or (op == 'Gt' and lv == ('const', 0) and rv == ret)
+            if e.kind == 'assert' and nonneg:
+                checked = True
+            if e.kind == 'cond' and ((nonneg and e.polarity) or (neg and e.polarity is False)):
+                checked = True
+        if not checked:
+            return False, 'the drawn delay is returned without the check that it is non-negative'
+    if n == 0:
+        return False, 'no completing path'
+    if kinds != {'gen', 'call', 'const'}:
+        return False, f'dispatch covers {sorted(kinds)}, expected generator / callable / constant'
     return True, ''
+
+
